@@ -380,7 +380,14 @@ func dbh(c *ctx, names []string) {
 }
 
 func init() {
-	dbdExtra = dfd
+	// quick tier: every second generator call feeds the full-model kinds (the thorough tier: all of them)
+	nd := 0
+	dbdExtra = func(c *ctx, template []byte, sizes []int, rbuf int, cfg dcfg, setReq, setResp bool) {
+		nd++
+		if c.thor || nd%2 == 0 {
+			dfd(c, template, sizes, rbuf, cfg, setReq, setResp)
+		}
+	}
 	dbuExtra = dfu
 	replayers["DFD"] = func(c *ctx, in []string) {
 		rb, _ := strconv.Atoi(in[2])
